@@ -242,6 +242,9 @@ class Ctx:
             self.states += r.distinct
             self.transitions += r.generated
         open(os.path.join(d, "tlc.out"), "w").write(o)
+        self.log("tlc %s (%s): generated=%d distinct=%d %s %.1fs" % (
+            module, cfg if len(cfg) < 40 else "cfg", r.generated, r.distinct,
+            "ok" if r.no_error else "NOT-CLEAN", r.wall))
         return r
 
     def tlc_ok(self, what, r):
